@@ -196,7 +196,12 @@ fn canon(o: &HObs) -> (Vec<Value>, Vec<u8>, String, Vec<u8>) {
     for f in frames {
         v.push(serde_json::from_slice::<Value>(f).unwrap_or(Value::Null));
     }
-    (v, rest.to_vec(), format!("{:?}", o.end), o.upgraded_record.clone())
+    // how much had been fed when `handle` failed is a property of the segmentation, not of the result
+    let end = match &o.end {
+        HEnd::Err { kind, .. } => format!("Err({})", kind),
+        other => format!("{:?}", other),
+    };
+    (v, rest.to_vec(), end, o.upgraded_record.clone())
 }
 
 /// C02: differential between the whole stream in one piece and the given segmentation / I/O plan,
